@@ -9,6 +9,7 @@ Claims are discharged as `path_condition AND NOT claim` queries.
 """
 import hashlib
 import math
+import os
 import time
 from fractions import Fraction
 
@@ -95,6 +96,21 @@ class Engine:
         self.log_tol = Fraction(1, 10 ** 12)
 
     # ------------------------------------------------------------------ solver
+    def _dump(self, extra, result):
+        """solver cross-check support: write the query as SMT-LIB2 (tools/crosscheck.py re-runs it with cvc5 / old z3)"""
+        d = os.environ.get("PVX_DUMP_DIR")
+        if not d or result not in ("sat", "unsat"):
+            return
+        n = getattr(self, "_dumped", 0)
+        if n >= int(os.environ.get("PVX_DUMP_MAX", "300")):
+            return
+        self._dumped = n + 1
+        s2 = z3.Solver()
+        s2.add(*self.solver.assertions())
+        s2.add(*extra)
+        with open(os.path.join(d, "q%d_%05d_%s.smt2" % (os.getpid(), n, result)), "w") as f:
+            f.write("(set-logic ALL)\n" + s2.to_smt2().replace("(check-sat)", "(check-sat)\n(exit)"))
+
     def _check(self, *extra, claim=False):
         t = time.time()
         self.stats.queries += 1
@@ -109,6 +125,7 @@ class Engine:
             self.stats.sat += 1
         elif s == "unsat":
             self.stats.unsat += 1
+        self._dump(extra, s)
         return s
 
     def _epoch_at(self, depth):
